@@ -203,16 +203,19 @@ _ROT_COMMON = dict(
 )
 _ROT_DOMAIN = (
     "case = configuration (size limit L in {0,1,2,7,9,10,11,17,30,64,200}, file-count limit N in {-1,0,1,2,3,4,12}, options subset of "
-    "{startup, daily, compression}, file name from {app.log, applog, a+b.log, app.v1.log, 'app (1).log', x.y.txt, .app.log (hidden)}, file-timestamp granularity "
-    "exact/1ms/1s/2s, start time incl. just before midnight) + history of 1..60 (120 thorough) operations: write (record of 0..40 bytes, sizes "
-    "steered to L-3..L+2 and over-limit, multi-byte UTF-8, embedded newline; every write is flushed so that it can be observed), advance the virtual clock (ms..s, to "
-    "around midnight, 1..40 days), restart the sink, flush, plant one of 12 look-alike foreign files; the directory is read back after every "
+    "{startup, daily, compression}, file name from {app.log, applog, a+b.log, app.v1.log, 'app (1).log', x.y.txt, .app.log (hidden), srv[1].log, open[.log, "
+    "a*b?.log, app.{x}.log, a\\d.log, \u00e9t\u00e9.log} (regex- and glob-special characters, non-ASCII), file-timestamp granularity "
+    "exact/1ms/1s/2s, time zone from {UTC, Asia/Tokyo, America/Los_Angeles, Pacific/Kiritimati, Pacific/Pago_Pago, Asia/Kolkata, Europe/Berlin, "
+    "Australia/Lord_Howe, America/St_Johns}, start day ordinary / a DST switch / 31 Dec / 29 Feb, start time incl. just before local midnight) + history of 1..60 (120 thorough) operations: write (record of 0..40 bytes, sizes "
+    "steered to L-3..L+2 and over-limit, multi-byte UTF-8 incl. U+E000..U+FFFF, embedded newline / CR / CRLF / TAB; every write is flushed so that it can be observed), advance the virtual clock (ms..s, to "
+    "around local midnight, to around UTC midnight, 1..40 days), restart the sink, flush, plant one of 12 look-alike foreign files; the directory is read back after every "
     "flushed operation (gzip through zlib's decoder) and file mtimes follow the virtual clock. "
 )
 _ROT_ASSUME = [
     "virtual wall clock only moves forward; a message is created and written at the same virtual instant",
     "L, N and options stay fixed across the restarts of one history",
-    "process locale is UTF-8 (C.UTF-8), TZ=UTC",
+    "process locale is UTF-8 (C.UTF-8); the time zone is part of the generated configuration (TZ is set per case, days computed with libc)",
+    "'calendar day' is accepted in either reading - local days or UTC days - as long as one reading fits the whole history",
     "files matching the sink's rotated-name scheme are produced only by the sink itself",
 ]
 
@@ -241,7 +244,7 @@ PROPS["C07"] = dict(_ROT_COMMON,
     level_note="Trusted: as C05.",
 )
 PROPS["C08"] = dict(_ROT_COMMON,
-    rule=_ROT_DOMAIN + "Compression always on; 12% of writes are large records (8 KiB-1 .. 256 KiB+1, 1 MiB in thorough) of four content classes (repetitive, random printable, binary-looking, mostly empty lines). Non-trivial (C08) = at least one validated .gz AND (content > 8 KiB or multi-byte records or >= 3 rotations); distinct = canonical JSON.",
+    rule=_ROT_DOMAIN + "Compression always on; 12% of writes are large records (8 KiB-1 .. 256 KiB+1, 1 MiB+1; 3-4 MiB in thorough) of four content classes (repetitive, random printable, binary-looking, mostly empty lines); 3% of the cases are 2..4 compressing sinks (own log, directory and thread) rotating at the same moments, each checked with the sequential oracle. Non-trivial (C08) = at least one validated .gz AND (content > 8 KiB or multi-byte records or >= 3 rotations); distinct = canonical JSON.",
     assumptions=_ROT_ASSUME + ["gzip validity = RFC 1952 header fields + zlib gzip-mode inflate consuming the whole file + own CRC-32/ISIZE comparison"],
     floors={"compression": 0.5, "gz_content>8KiB": 0.05},
     technique="model-based property testing (rapidcheck): generated contents and histories; every *.gz decoded by zlib's gzip decoder and compared with the records expected in that file (round trip)",
